@@ -531,7 +531,7 @@ mutual
           · cases pure_ok h
             exact wfL_cons (wfE_boolOp2 _ htw hbw) wfL_nil
           · cases pure_ok h
-            exact wfL_cons (wfE_boolOp2 _ (wfE_boolOp2 _ htw (wfE_boolOp2 _ hbw (wfE_nat 1))) how) wfL_nil
+            exact wfL_cons (wfE_boolOp2 _ (wfE_boolOp2 _ htw (wfE_list (wfL_cons hbw wfL_nil))) how) wfL_nil
         · cases pure_ok h
           exact wfL_cons (wfE_ifExp htw hbw how) wfL_nil
     | .while_ t b e, cx, st, es, st', h, hw => by
